@@ -159,6 +159,7 @@ type c09node struct {
 	rt      *tunnel.RoutingTable
 	sm      *session.SessionManager
 	crashed bool
+	down    bool // SessionManager closed (graceful shutdown); the store stays reachable
 }
 
 type c09world struct {
@@ -827,9 +828,11 @@ const (
 	c09EndClose
 	c09EndServe
 	c09EndCrash
+	c09EndCloseDuringOpen // the source connection drops while startSourceBridge is still running
+	c09EndShutdown        // the source node's SessionManager is closed (graceful shutdown)
 )
 
-var c09EndNames = []string{"timeout", "close", "serve+close", "crash"}
+var c09EndNames = []string{"timeout", "close", "serve+close", "crash", "close-during-open", "node-shutdown"}
 
 type c09tun struct {
 	idx        int
@@ -875,7 +878,8 @@ func c09Lifecycle(w *simrt.World) {
 	fault := []string{"none", "none", "none", "delete-fails", "get-fails"}[c.Intn(5, "fault.kind")]
 	cc := &c09cc{m: map[string]*models.PortMapping{}}
 	startDelays := []time.Duration{0, 31 * time.Millisecond, 123 * time.Millisecond, 707 * time.Millisecond, 4300 * time.Millisecond}
-	endDelays := []time.Duration{11 * time.Millisecond, 403 * time.Millisecond, 3100 * time.Millisecond, 12300 * time.Millisecond}
+	// 0 = at the very instant the previous step returned: the end of the tunnel then races with whatever the open left running
+	endDelays := []time.Duration{11 * time.Millisecond, 403 * time.Millisecond, 3100 * time.Millisecond, 12300 * time.Millisecond, 0, 0}
 	var tuns []*c09tun
 	for i := 0; i < ntun; i++ {
 		t := &c09tun{idx: i, dupOf: -1}
@@ -895,11 +899,21 @@ func c09Lifecycle(w *simrt.World) {
 		t.want = c09want{TunnelID: t.id, MappingID: t.mapID, SecretKey: t.secret, SourceNodeID: nodeIDs[t.src],
 			SourceClientID: rec.SourceClientID, TargetClientID: rec.TargetClientID, TargetHost: rec.TargetHost, TargetPort: rec.TargetPort}
 		t.startDelay = startDelays[c.Intn(len(startDelays), "tun.start")]
-		t.ending = c.Intn(4, "tun.ending")
+		t.ending = c.Intn(6, "tun.ending")
 		t.endDelay = endDelays[c.Intn(len(endDelays), "tun.end")]
 		t.endDelay2 = endDelays[c.Intn(len(endDelays), "tun.end2")]
 		t.delMayFail = fault == "delete-fails"
 		tuns = append(tuns, t)
+	}
+	for _, t := range tuns {
+		// the racing closer recognises "its" bridge by tunnel id within one node: with a second opener of the
+		// same id on the same node it could close the other opener's bridge, so such a tunnel is closed by its
+		// own task at the instant the open returns instead
+		for _, u := range tuns {
+			if u != t && u.id == t.id && u.src == t.src && t.ending == c09EndCloseDuringOpen {
+				t.ending, t.endDelay = c09EndClose, 0
+			}
+		}
 	}
 	nlook := 1 + c.Intn(4, "lookers")
 	lookDelays := []time.Duration{0, 23 * time.Millisecond, 97 * time.Millisecond, 509 * time.Millisecond, 2003 * time.Millisecond, 13007 * time.Millisecond, 35011 * time.Millisecond, 47003 * time.Millisecond}
@@ -991,8 +1005,11 @@ func c09Lifecycle(w *simrt.World) {
 		return l
 	}
 	// judge one lookup result (direct or polled) observed between from and to
-	resolvedElsewhere, sawAfterEnd := false, false
+	resolvedElsewhere, sawAfterEnd, failed := false, false, false
 	judge := func(kind string, node int, id string, got *tunnel.WaitingState, err error, from, to time.Time) bool {
+		if failed {
+			return false
+		}
 		cands := sameID(id)
 		dupc := "single-opener"
 		if len(cands) > 1 {
@@ -1021,11 +1038,13 @@ func c09Lifecycle(w *simrt.World) {
 				d := ref.want.diff(got)
 				w.Violationf("C09:lifecycle-fidelity:"+d+":"+be, "%s lookup of %s on n%d returned %s; the tunnel was opened with %s (first differing field %s)\n%s",
 					kind, c09q(id), node, c09stateStr(got), ref.want, d, tail())
+				failed = true
 				return false
 			}
 			if match == nil {
 				w.Violationf("C09:stale-route:"+why+":"+dupc+":"+be, "%s lookup of %s on n%d at %v..%v resolves to %s although that tunnel is %s\n%s",
 					kind, c09q(id), node, from.Sub(start), to.Sub(start), c09stateStr(got), why, tail())
+				failed = true
 				return false
 			}
 			if match.src != node {
@@ -1043,6 +1062,28 @@ func c09Lifecycle(w *simrt.World) {
 		return true
 	}
 
+	// postEnd: the lifecycle of t is over; a late or replayed id must not resolve on any live node
+	// (whatever the open or the end left running has had simulated time to finish)
+	postEnd := func(t *c09tun) {
+		t.ended = time.Now()
+		sawAfterEnd = true
+		note("tunnel %d lifecycle over", t.idx)
+		for ni, m := range cw.nodes {
+			if m.crashed || failed {
+				continue
+			}
+			now := time.Now()
+			got, err := m.rt.LookupWaitingTunnel(w.Ctx, t.id)
+			if m.crashed {
+				continue
+			}
+			note("n%d lookup right after the end of tunnel %d → %s err=%v", ni, t.idx, c09stateStr(got), err)
+			w.Probe("C.post-end.lookup")
+			if !judge("post-end", ni, t.id, got, err, now, now) {
+				return
+			}
+		}
+	}
 	// ---- source tasks
 	var tasks []*simrt.Task
 	for _, t := range tuns {
@@ -1051,8 +1092,25 @@ func c09Lifecycle(w *simrt.World) {
 			n := cw.nodes[t.src]
 			w.Sleep(t.startDelay)
 			w.Yield("c09.open")
-			if n.crashed {
+			if n.crashed || n.down {
 				return
+			}
+			var closer *simrt.Task
+			prev := n.sm.BridgeForVerif(t.id) // a bridge of an earlier opener of the same id on this node is not ours
+			if t.ending == c09EndCloseDuringOpen {
+				// the source connection goes away as soon as the bridge exists, possibly before the open has returned
+				closer = w.Spawn(fmt.Sprintf("closer%d", t.idx), func() {
+					for i := 0; i < 300 && !t.rejected && t.regDone.IsZero(); i++ {
+						w.Yield("c09.closer")
+						if b := n.sm.BridgeForVerif(t.id); b != nil && b != prev {
+							t.endCall = time.Now()
+							note("n%d source of tunnel %d drops during the open: bridge closed", t.src, t.idx)
+							w.Probe("C.closed-before-open-returned")
+							b.Close()
+							return
+						}
+					}
+				})
 			}
 			t.regCall = time.Now()
 			note("n%d opens tunnel %d id=%s ending=%s", t.src, t.idx, c09q(t.id), c09EndNames[t.ending])
@@ -1064,12 +1122,62 @@ func c09Lifecycle(w *simrt.World) {
 				return
 			}
 			br := n.sm.BridgeForVerif(t.id)
+			if n.down {
+				// the node was shut down while this open was in flight
+				t.endCall = time.Now()
+				w.Sleep(3 * time.Millisecond)
+				if !n.crashed {
+					postEnd(t)
+				}
+				return
+			}
+			// gone: the node crashed or shut down meanwhile; this tunnel's end has been recorded by that event
+			gone := func() bool { return n.crashed || n.down || !t.ended.IsZero() }
 			switch t.ending {
+			case c09EndCloseDuringOpen:
+				closer.Wait()
+				if t.endCall.IsZero() {
+					t.endCall = time.Now()
+					note("n%d closes bridge of tunnel %d right after the open returned", t.src, t.idx)
+					if br != nil {
+						br.Close()
+					}
+				}
+				w.Sleep(3 * time.Millisecond)
+			case c09EndShutdown:
+				w.Sleep(t.endDelay)
+				if n.crashed || n.down {
+					return
+				}
+				n.down = true
+				now := time.Now()
+				var mine []*c09tun
+				for _, u := range tuns {
+					if u.src == t.src && !u.regDone.IsZero() && !u.rejected && u.ended.IsZero() {
+						if u.endCall.IsZero() || u.endCall.After(now) {
+							u.endCall = now
+						}
+						mine = append(mine, u)
+					}
+				}
+				note("n%d SHUTS DOWN (SessionManager.Close)", t.src)
+				w.Probe("C.node-shutdown")
+				n.sm.Close()
+				w.Sleep(3 * time.Millisecond)
+				for _, u := range mine {
+					if u.ended.IsZero() && !n.crashed {
+						postEnd(u)
+					}
+				}
+				return
 			case c09EndTimeout:
 				t.endCall = t.regDone.Add(c09BridgeWait)
 				w.Sleep(c09BridgeWait + 7*time.Millisecond)
 			case c09EndClose:
 				w.Sleep(t.endDelay)
+				if gone() {
+					return
+				}
 				t.endCall = time.Now()
 				note("n%d closes bridge of tunnel %d (source went away)", t.src, t.idx)
 				if br != nil {
@@ -1078,12 +1186,18 @@ func c09Lifecycle(w *simrt.World) {
 				w.Sleep(3 * time.Millisecond)
 			case c09EndServe:
 				w.Sleep(t.endDelay)
+				if gone() {
+					return
+				}
 				t.endCall = time.Now()
 				note("n%d tunnel %d served (target ready)", t.src, t.idx)
 				if br != nil {
 					br.NotifyTargetReady()
 				}
 				w.Sleep(t.endDelay2)
+				if gone() {
+					return
+				}
 				note("n%d tunnel %d finished", t.src, t.idx)
 				if br != nil {
 					br.Close()
@@ -1091,7 +1205,7 @@ func c09Lifecycle(w *simrt.World) {
 				w.Sleep(3 * time.Millisecond)
 			case c09EndCrash:
 				w.Sleep(t.endDelay)
-				if !n.crashed {
+				if !n.crashed && !n.down {
 					n.crashed = true
 					now := time.Now()
 					for _, u := range tuns {
@@ -1108,12 +1222,10 @@ func c09Lifecycle(w *simrt.World) {
 				}
 				return
 			}
-			if n.crashed {
+			if n.crashed || n.down || !t.ended.IsZero() {
 				return
 			}
-			t.ended = time.Now()
-			sawAfterEnd = true
-			note("tunnel %d lifecycle over", t.idx)
+			postEnd(t)
 		}))
 	}
 	// ---- target-side polling lookups (the real lookupTunnelRouting)
@@ -1123,7 +1235,7 @@ func c09Lifecycle(w *simrt.World) {
 			n := cw.nodes[l.node]
 			w.Sleep(l.delay)
 			w.Yield("c09.poll")
-			if n.crashed {
+			if n.crashed || n.down {
 				return
 			}
 			ctx, cancel := context.WithTimeout(w.Ctx, l.timeout)
@@ -1157,7 +1269,7 @@ func c09Lifecycle(w *simrt.World) {
 					continue
 				}
 				note("n%d direct lookup %s → %s err=%v", ni, c09q(id), c09stateStr(got), err)
-				if !judge("direct", ni, id, got, err, now, now) {
+				if !judge("direct", ni, id, got, err, now, now) || failed {
 					return false
 				}
 				cands := sameID(id)
@@ -1201,6 +1313,9 @@ func c09Lifecycle(w *simrt.World) {
 	}
 	for _, t := range tasks {
 		t.Wait()
+	}
+	if failed {
+		return
 	}
 	// polled results
 	for _, l := range looks {
@@ -1257,7 +1372,7 @@ func c09Lifecycle(w *simrt.World) {
 	}
 	// a replayed tunnel id through the real polling path
 	for ni, n := range cw.nodes {
-		if n.crashed {
+		if n.crashed || n.down {
 			continue
 		}
 		ctx, cancel := context.WithTimeout(w.Ctx, 700*time.Millisecond)
@@ -1288,7 +1403,7 @@ func init() {
 		Level: "exploration",
 		Rule: "each run draws a mode. (A, 4/8) 2-3 nodes with real RoutingTables over one shared backend drawn from {memory, redis(miniredis), tiered hybrid with shared redis, tiered hybrid with shared memory, or the same plan on memory+redis+tiered compared outcome by outcome}; waiting period drawn from {30s, 1s, 0=default}; 1-5 tunnel ids and all record fields from a hostile valid-UTF-8 generator (empty, 1 byte, 64 KiB, NUL, U+2028, JSON text, quotes/backslashes, key-like text) and int64/int extremes; a plan of 8-35 operations register / lookup / remove / clock advance (never within 2 ms of an expiry) / RegisterNodeAddress / GetNodeAddress from drawn nodes, optionally storage failures on drawn operations and a caller that edits its own struct after Register returned; each lookup is compared field by field and instant by instant with a reference table (resolves iff registered, not removed, now < registration + waiting period). " +
 			"(B, 1/8) one task per node issues 2-5 register/lookup/remove operations on 1-2 ids concurrently, interleaved at every storage operation and every statement of routing.go; the history is checked for linearizability. " +
-			"(C, 3/8) one real SessionManager per node with a stub mapping directory; 1-3 tunnels opened through the real startSourceBridge on drawn nodes at drawn instants (optionally the same tunnel id opened again through another node), ending by the 30 s bridge timeout, bridge close, target-ready then close, or crash of the source node (its storage handle is fenced); 1-4 target-side calls of the real polling lookupTunnelRouting on drawn nodes at drawn instants; 1-6 checkpoints (drawn instants between 5 ms and 62 s) where every live node looks every id up directly; optional storage faults (deletes fail with probability 1/2, or reads fail with probability 1/4); in the tail, after all lifecycles ended and all waiting periods lapsed, no node may resolve any id, including through a replayed polling lookup. " +
+			"(C, 3/8) one real SessionManager per node with a stub mapping directory; 1-3 tunnels opened through the real startSourceBridge on drawn nodes at drawn instants (optionally the same tunnel id opened again through another node), ending by the 30 s bridge timeout, bridge close, target-ready then close, crash of the source node (its storage handle is fenced), a close issued by a second task as soon as the bridge exists (possibly before startSourceBridge has returned), or a graceful shutdown of the source node's SessionManager; the delay before an end is drawn from {0 = same simulated instant, so the end races at statement granularity with whatever the open left running, 11 ms, 403 ms, 3.1 s, 12.3 s}; 3 ms after every lifecycle end every live node looks the id up directly (must not resolve); 1-4 target-side calls of the real polling lookupTunnelRouting on drawn nodes at drawn instants; 1-6 checkpoints (drawn instants between 5 ms and 62 s) where every live node looks every id up directly; optional storage faults (deletes fail with probability 1/2, or reads fail with probability 1/4); in the tail, after all lifecycles ended and all waiting periods lapsed, no node may resolve any id, including through a replayed polling lookup. " +
 			"Non-trivial: (A) a lookup from a node other than the registering one resolved AND the history contains a removal or expiry of a registered id or a re-registration from another node; (B) two operations of different nodes on the same id overlapped, at least one a write; (C) a lookup from a node other than the source node resolved AND at least one tunnel lifecycle ended before the run's tail. Distinct = distinct schedule hashes / abstract states (backend x waiting-count x resolves x duplicates).",
 		Real: []string{"internal/protocol/session/tunnel RoutingTable (Register/Lookup/RemoveWaitingTunnel, Register/GetNodeAddress)", "internal/protocol/session SessionManager.startSourceBridge, runBridgeLifecycle, lookupTunnelRouting, tunnel.Bridge (Start/Close/NotifyTargetReady)",
 			"internal/core/storage/memory", "internal/core/storage/redis over go-redis", "internal/core/storage/hybrid (DefaultConfig, shared cache)", "miniredis (real command + TTL semantics) in the bubble"},
